@@ -49,21 +49,29 @@ def decTblRow (s : String) : Option (Int × LocalResult) :=
     | _, _, _ => none
   | _ => none
 
+/-- `H,T` or `H,-` -/
+def decHorizon (s : String) : Option (Int × Option Int) :=
+  match splitOnChar ',' s with
+  | [h, t] => match decInt h, decOpt decInt t with
+    | some h, some t => some (h, t)
+    | _, _ => none
+  | _ => none
+
 def decFacts (s : String) : Option Facts :=
   match splitOnChar ';' s with
   | [civ, lnow, offNow, mk, offTrunc, offRes, chg, rciv, tgt, tbl] =>
     match decInts ',' civ, decInt lnow, decInt offNow, splitOnChar ',' mk,
-        decOpt decInt offTrunc, decOpt decInt offRes, decOpt decBool chg, decOpt decCivilTime rciv,
+        decOpt decInt offTrunc, decOpt decInt offRes, decHorizon chg, decOpt decCivilTime rciv,
         decTarget tgt, mapM? decTblRow (decList ',' tbl) with
     | some [y, m0, d, o0, w0, wd, h, mi, sec], some lnow, some offNow, [qy, qmo, qd, qh, qmi, qs, kind, a, b],
-        some offTrunc, some offRes, some chg, some rciv, some (tgtCivil, tgtLocal), some tbl =>
+        some offTrunc, some offRes, some (horizon, tr1), some rciv, some (tgtCivil, tgtLocal), some tbl =>
       match mapM? decInt [qy, qmo, qd, qh, qmi, qs, a, b] with
       | some [qy, qmo, qd, qh, qmi, qs, a, b] =>
         let args : CivilTime := ⟨qy, qmo, qd, qh, qmi, qs⟩
         let r : Option (Option CivilTime × LocalResult) :=
           if kind = "x" then some (none, .none) else (decKind kind a b).map fun r => (some args, r)
         r.map fun (mkArgs, mkRes) =>
-          { civ := ⟨y, m0, d, o0, w0, wd, h, mi, sec⟩, lnow, offNow, mkArgs, mkRes, offTrunc, offRes, chg, rciv,
+          { civ := ⟨y, m0, d, o0, w0, wd, h, mi, sec⟩, lnow, offNow, mkArgs, mkRes, offTrunc, offRes, horizon, tr1, rciv,
             tgtCivil, tgtLocal, tbl }
       | _ => none
     | _, _, _, _, _, _, _, _, _, _ => none
@@ -86,16 +94,8 @@ def renderOut : Out Int → String
 
 /-- the model's schedule at one instant, fed with chrono's answers as observed -/
 def modelNext (f : Facts) (u : IUnit) (n : Int) (modulate : Bool) : Except String (Out Int) :=
-  if codeFixed then
-    if isCalendarUnit u ∧ targetCivilFixed f.civ u n modulate ≠ f.tgtCivil then .error "target-mismatch"
-    else .ok (getNextTimeFixed f.civ (envOf f) u n modulate)
-  else
-  let q := mkQuery f.civ u n modulate
-  if q ≠ f.mkArgs then
-    .error ("mk-mismatch:" ++ (match q with
-      | some c => s!"{c.y},{c.mo},{c.d},{c.h},{c.mi},{c.s}"
-      | none => "x"))
-  else .ok (getNextTime f.civ u n modulate (fun _ => f.mkRes))
+  if isCalendarUnit u ∧ targetCivilFixed f.civ u n modulate ≠ f.tgtCivil then .error "target-mismatch"
+  else .ok (getNextTimeFixed f.civ (envOf f) u n modulate)
 
 def renderNext (f : Facts) (u : IUnit) (n : Int) (modulate : Bool) (at_ : Int) : String :=
   if f.now ≠ at_ then "facts-are-of-another-instant" else
@@ -111,20 +111,15 @@ def absurdN (u : IUnit) (n : Int) : Bool :=
     | u => unitSecs u
   n * approx > DT_MAX
 
+/-- the input class of a failure of the schedule clauses -/
 def sigNext (f : Facts) (u : IUnit) (n : Int) (c : Clause) : String :=
-  let across := f.offTrunc.isSome ∧ f.offTrunc ≠ some f.offNow
-  let yearOutOfRange : Bool := match f.mkArgs with
-    | some q => decide (q.y < -262143 ∨ q.y > 262142)
-    | none => false
-  if absurdN u n ∨ yearOutOfRange then "C16/interval-overflows-chrono"
+  let gapOrFold := f.tbl.any fun r => match r.2 with | .single _ => false | _ => true
+  if n < 1 then "C16/interval-below-1-" ++ (match c with | .panics => "panics" | _ => "not-after-now")
+  else if absurdN u n then "C16/interval-beyond-chrono-range"
   else match c with
-    | .panics =>
-      match f.mkRes, f.mkArgs with
-      | .ambiguous _ _, some _ => "C16/local-time-ambiguous-or-missing-at-truncation"
-      | .none, some _ => "C16/local-time-ambiguous-or-missing-at-truncation"
-      | _, _ => "C16/panic-unclassified"
-    | .notAfterNow => if across then "C16/not-after-now-across-offset-change" else "C16/not-after-now-unclassified"
-    | .offBoundary => if across then "C16/off-boundary-across-offset-change" else "C16/off-boundary-unclassified"
+    | .panics => if gapOrFold then "C16/panic-at-gap-or-overlap-target" else "C16/panic"
+    | .notAfterNow => if gapOrFold then "C16/not-after-now-at-gap-or-overlap-target" else "C16/not-after-now"
+    | .offBoundary => "C16/off-boundary-with-offset-unchanged"
 
 def clauseName : Clause → String
   | .panics => "panics"
@@ -142,28 +137,35 @@ def unitName : IUnit → String
   | .second => "second" | .minute => "minute" | .hour => "hour" | .day => "day"
   | .week => "week" | .month => "month" | .year => "year"
 
-/-- the wider input region of F12: day/week schedule computed across an offset change (the current
-code adds absolute days there; the statement itself only fails in part of this region) -/
-def acrossTag (u : IUnit) (fs : List Facts) : List String :=
-  if (u = .day ∨ u = .week) ∧ fs.any (fun f => f.chg = some true) then ["day-week-across-offset-change"] else []
-
-def factTags (f : Facts) : List String :=
-  (match f.mkRes, f.mkArgs with
-    | _, none => ["mk-not-reached"]
-    | .single _, _ => []
-    | .ambiguous _ _, _ => ["mk-ambiguous"]
-    | .none, _ => ["mk-none"]) ++
-  (if f.offTrunc.isSome ∧ f.offTrunc ≠ some f.offNow then ["unit-start-in-other-offset"] else []) ++
-  (if f.chg = some true then ["offset-changes-before-next"] else []) ++
+/-- which part of the quantifier the instant exercises, and which branch of the Spec judged it -/
+def factTags (f : Facts) (u : IUnit) (n : Int) (modulate : Bool) (result : Option Int) : List String :=
+  let c := f.civ
   (if f.tbl.any (fun r => r.2 = .none) then ["target-in-gap"] else []) ++
   (if f.tbl.any (fun r => match r.2 with | .ambiguous _ _ => true | _ => false) then ["target-ambiguous"] else []) ++
-  (if f.offNow % 3600 ≠ 0 then ["fractional-offset"] else [])
+  (if (f.tbl.filter (fun r => r.2 = .none)).length ≥ 90 then ["whole-day-gap"] else []) ++
+  (if f.offTrunc.isSome ∧ f.offTrunc ≠ some f.offNow then ["unit-start-in-other-offset"] else []) ++
+  (if f.offNow % 3600 ≠ 0 then ["fractional-offset"] else []) ++
+  (if c.month0 = 1 ∧ c.day = 29 then ["leap-day"] else []) ++
+  (if (c.month0 = 11 ∧ c.day = 31) ∨ (c.month0 = 0 ∧ c.day = 1) then ["year-end"] else []) ++
+  (if (c.month0 = 0 ∧ c.week0 ≥ 51) ∨ (c.month0 = 11 ∧ c.week0 = 0) then ["iso-year-end"] else []) ++
+  (if f.now < 0 then ["before-1970"] else if f.now ≥ FAR then ["after-year-9999"] else if f.now > 4300000000 then ["after-2106"] else []) ++
+  (if n < 1 then ["n-below-1"] else
+    (match reach f u n modulate with
+      | .never => ["reach-never"]
+      | .either => ["reach-either"]
+      | .exact =>
+        match offsetUnchanged f u n modulate with
+        | some true => ["boundary-checked"]
+        | some false => ["offset-changes-before-boundary"]
+        | none => ["offset-change-undecided"])) ++
+  (match result with
+    | some r => if r ≥ FAR then ["impl-never"] else []
+    | none => ["impl-panics"])
 
-/-- verdict of the `next` clauses on one instant; `ok` outside the statement's domain (n < 1) -/
+/-- verdict of the schedule clauses on one instant -/
 def verdictNext (f : Facts) (u : IUnit) (n : Int) (modulate : Bool) (result : Option Int) (pre : String) : Option String :=
-  if n < 1 then none
-  else (checkNext f u n modulate result).map fun c =>
-    "FAIL:" ++ pre ++ clauseName c ++ ";sig=" ++ sigNext f u n c
+  let c := if n < 1 then checkNextAnyN f result else checkNext f u n modulate result
+  c.map fun c => "FAIL:" ++ pre ++ clauseName c ++ ";sig=" ++ sigNext f u n c
 
 structure Block where
   rawFacts : String
@@ -183,13 +185,38 @@ def decInstant (s : String) : Option (Int × Nat) :=
     | _, _ => none
   | _ => none
 
-/-- `f:sched`, or anything else (a panic class, `E`, `?`) -/
-def decTrigObs (s : String) : TrigObs :=
-  match splitOnChar ':' s with
-  | [a, b] => match decBool a, decInt b with
-    | some a, some b => some (a, b)
+/-- one arrival of the case: the clock reading of `trigger()`, optionally a different second
+reading (inside `TimeTrigger::new`), and whether the roller is made to fail -/
+structure Arrival where
+  first : Int × Nat
+  second : Option (Int × Nat)
+  failRoll : Bool
+
+def decArrival (s : String) : Option Arrival :=
+  let failRoll := s.endsWith "!"
+  let s := if failRoll then (s.dropEnd 1).toString else s
+  match splitOnChar '/' s with
+  | [a] => (decInstant a).map fun a => { first := a, second := none, failRoll }
+  | [a, b] => match decInstant a, decInstant b with
+    | some a, some b => some { first := a, second := some b, failRoll }
     | _, _ => none
   | _ => none
+
+/-- an entry of the trigger log: `f:sched` (+ `:E` when `append` then returned an error), or
+anything else (a panic class, `E`, `?`) -/
+structure Entry where
+  obs : TrigObs
+  appendErr : Bool
+
+def decEntry (s : String) : Entry :=
+  match splitOnChar ':' s with
+  | [a, b] => match decBool a, decInt b with
+    | some a, some b => { obs := some (a, b), appendErr := false }
+    | _, _ => { obs := none, appendErr := false }
+  | [a, b, "E"] => match decBool a, decInt b with
+    | some a, some b => { obs := some (a, b), appendErr := true }
+    | _, _ => { obs := none, appendErr := false }
+  | _ => { obs := none, appendErr := false }
 
 def pairUp : List String → Option (List (String × String))
   | [] => some []
@@ -199,6 +226,9 @@ def pairUp : List String → Option (List (String × String))
 def renderSegs (segs : List (List Nat)) : String :=
   ";".intercalate (segs.map fun s => encList "," (s.map toString))
 
+def decSegs (s : String) : Option (List (List Nat)) :=
+  mapM? (fun seg => mapM? decNat (decList ',' seg)) (splitOnChar ';' s)
+
 def handleNext (secs : Int) (u : IUnit) (n : Int) (modulate : Bool) (obs : List String) : Answer :=
   match obs with
   | [rf, rr] =>
@@ -207,14 +237,23 @@ def handleNext (secs : Int) (u : IUnit) (n : Int) (modulate : Bool) (obs : List 
     | some b =>
       let model := rf ++ " " ++ renderNext b.facts u n modulate secs
       let spec := (verdictNext b.facts u n modulate b.result "").getD "ok"
-      let tags := ["next", unitName u, if modulate then "modulated" else "plain"] ++ factTags b.facts ++
-        acrossTag u [b.facts] ++
-        (if n < 1 then ["n-below-1"] else if absurdN u n then ["n-absurd"] else if n = 1 then ["n-1"] else ["n-many"]) ++
-        (if b.result.isNone then ["impl-panics"] else [])
+      let tags := ["next", unitName u, if modulate then "modulated" else "plain"] ++
+        factTags b.facts u n modulate b.result ++
+        (if n < 1 then [] else if absurdN u n then ["n-absurd"] else if n = 1 then ["n-1"] else ["n-many"])
       { model, spec, tags }
   | _ => badCase "obs-arity"
 
-def handleTrig (secs : Int) (u : IUnit) (n : Int) (modulate : Bool) (maxDelay : Int) (arrivals : List (Int × Nat))
+/-- the blocks of the arrivals: one per arrival, two when the arrival has a second clock reading -/
+def splitBlocks : List Arrival → List Block → Option (List (Block × Option Block))
+  | [], [] => some []
+  | a :: as, b :: bs =>
+    match a.second, bs with
+    | none, _ => (splitBlocks as bs).map ((b, none) :: ·)
+    | some _, b2 :: bs' => (splitBlocks as bs').map ((b, some b2) :: ·)
+    | some _, [] => none
+  | _, _ => none
+
+def handleTrig (secs : Int) (u : IUnit) (n : Int) (modulate : Bool) (maxDelay : Int) (arrivals : List Arrival)
     (obs : List String) : Answer :=
   let pre := obs.takeWhile (· ≠ "T")
   let post := (obs.dropWhile (· ≠ "T")).drop 1
@@ -224,49 +263,55 @@ def handleTrig (secs : Int) (u : IUnit) (n : Int) (modulate : Bool) (maxDelay : 
     match mapM? (fun (p : String × String) => decBlock p.1 p.2) pairs with
     | none => badCase "facts"
     | some [] => badCase "no-block"
-    | some (b0 :: bs) =>
-      if bs.length ≠ arrivals.length then badCase "block-count" else
-      match post with
-      | [] => badCase "no-sched"
-      | s0 :: restObs =>
+    | some (b0 :: bsAll) =>
+      match splitBlocks arrivals bsAll, post with
+      | none, _ => badCase "block-count"
+      | _, [] => badCase "no-sched"
+      | some bs, s0 :: restObs =>
+        -- the instants whose facts appear, in order
+        let instants : List Int := secs :: arrivals.flatMap fun a =>
+          a.first.1 :: (match a.second with | some s => [s.1] | none => [])
         let blockModel := fun (p : Block × Int) => p.1.rawFacts ++ " " ++ renderNext p.1.facts u n modulate p.2
-        let head := " ".intercalate (((b0 :: bs).zip (secs :: arrivals.map (·.1))).map blockModel) ++ " T "
-        -- block verdicts first: the schedule computation at every instant involved
+        let head := " ".intercalate (((b0 :: bsAll).zip instants).map blockModel) ++ " T "
+        -- the schedule clauses at every instant involved
         let blockVerdict : Option String :=
-          ((b0 :: bs).zipIdx.findSome? fun (b, i) =>
-            verdictNext b.facts u n modulate b.result (if i = 0 then "at-creation:" else s!"at-arrival-{i}:"))
-        let next0 : Out Int := match modelNext b0.facts u n modulate with
+          ((b0 :: bsAll).zipIdx.findSome? fun (b, i) =>
+            verdictNext b.facts u n modulate b.result (if i = 0 then "at-creation:" else s!"at-instant-{i}:"))
+        let outOf := fun (b : Block) => match modelNext b.facts u n modulate with
           | .ok o => o
-          | .error e => .panic e
+          | .error e => (.panic e : Out Int)
         let implS0 := decInt s0
         let d0 : Int := match implS0, b0.result with
           | some s, some r => s - r
           | _, _ => 0
-        let sched0 := (if codeFixed then scheduleFixed else schedule) next0 maxDelay d0
-        -- what the implementation reported after the marker (nothing more when creation panicked)
-        let entries := restObs.take arrivals.length
+        let sched0 := scheduleFixed (outOf b0) maxDelay d0
+        let entriesRaw := restObs.take arrivals.length
         let segObs := restObs.drop arrivals.length
-        let shapeOk : Bool := entries.length = arrivals.length ∧ segObs.length = 1
-        let tobs : List TrigObs := (entries.map decTrigObs) ++ List.replicate (arrivals.length - entries.length) none
+        let shapeOk : Bool := entriesRaw.length = arrivals.length ∧ segObs.length = 1
+        let entries : List Entry := entriesRaw.map decEntry ++
+          List.replicate (arrivals.length - entriesRaw.length) { obs := none, appendErr := false }
+        -- the block whose schedule `TimeTrigger::new` computes when arrival i fires: the second
+        -- clock reading if there is one (`secondReadFixed`: the first reading)
+        let reschedBlock := fun (p : Block × Option Block) => match p.2 with
+          | some b2 => if secondReadFixed then p.1 else b2
+          | none => p.1
+        let rows := arrivals.zip (bs.zip entries)
         -- the model's run, fed with the observed random delays
         let model := match sched0 with
           | .ok s =>
-            let steps : List (Int × Out Int) := (arrivals.zip (bs.zip tobs)).map fun ((a, _), (b, o)) =>
-              let nx : Out Int := match modelNext b.facts u n modulate with
-                | .ok o => o
-                | .error e => .panic e
-              let d : Int := match o, b.result with
+            let steps : List (Int × Out Int) := rows.map fun (a, (p, e)) =>
+              let rb := reschedBlock p
+              let d : Int := match e.obs, rb.result with
                 | some (true, after), some r => after - r
                 | _, _ => 0
-              (a, (if codeFixed then scheduleFixed else schedule) nx maxDelay d)
-            let outs := (if codeFixed then runFixed else run) (.live s) steps
-            let rendered := outs.map fun (o, st) => match o, st with
-              | .ok fired, .live t => encBool fired ++ ":" ++ toString t
-              | .ok _, .poisoned => "?"
-              | .err _, _ => "E"
-              | .panic w, _ => "P." ++ w
-            let flags := outs.map fun (o, _) => match o with
-              | .ok fired => some fired
+              (a.first.1, scheduleFixed (outOf rb) maxDelay d)
+            let outs := runFixed s steps
+            let rendered := (outs.zip arrivals).map fun ((o, t), a) => match o with
+              | .ok fired => encBool fired ++ ":" ++ toString t ++ (if fired ∧ a.failRoll then ":E" else "")
+              | .err _ => "E"
+              | .panic w => "P." ++ w
+            let flags := (outs.zip arrivals).map fun ((o, _), a) => match o with
+              | .ok fired => if fired ∧ a.failRoll then none else some fired
               | _ => none
             let segs := if arrivals.isEmpty then "-" else renderSegs (segment flags)
             head ++ " ".intercalate (toString s :: rendered ++ [segs])
@@ -279,34 +324,46 @@ def handleTrig (secs : Int) (u : IUnit) (n : Int) (modulate : Bool) (maxDelay : 
             if ¬ shapeOk then some "FAIL:observation-incomplete;sig=C16/trigger-observation" else
             if ¬ delayOk maxDelay d0 then some "FAIL:at-creation:random-delay-out-of-range;sig=C16/delay-out-of-range" else
             let walk := checkTrigger maxDelay is0
-              ((arrivals.zip (bs.zip tobs)).map fun ((a, _), (b, o)) => (a, b.result, o))
+              (rows.map fun (a, (p, e)) => (a.first.1, (reschedBlock p).result, e.obs))
             match walk with
             | some (i, c) =>
+              let second := match arrivals[i]? with
+                | some a => a.second.isSome
+                | none => false
               let sig := match c with
-                | .panics =>
-                  -- poisoned lock: the class of the first panic
-                  let firstPanic := (bs.zip tobs).find? fun (_, o) => o.isNone
-                  match firstPanic with
-                  | some (b, _) => sigNext b.facts u n .panics
-                  | none => "C16/trigger-panics"
-                | .reschedNotFuture => match bs[i]? with
-                  | some b => sigNext b.facts u n .notAfterNow
-                  | none => "C16/trigger"
+                | .panics => "C16/trigger-panics"
+                | .reschedNotFuture =>
+                  if second then "C16/second-clock-reading-earlier-than-first" else "C16/rescheduled-not-after-arrival"
                 | c => "C16/trigger-" ++ tclauseName c
               some (s!"FAIL:at-arrival-{i + 1}:" ++ tclauseName c ++ ";sig=" ++ sig)
             | none =>
-              let implFlags := tobs.map fun o => o.map (·.1)
-              let wantSegs := if arrivals.isEmpty then "-" else renderSegs (segment implFlags)
-              if segObs ≠ [wantSegs] then some ("FAIL:files-not-cut-before-the-firing-record expected " ++ wantSegs ++ ";sig=C16/trigger-segmentation")
-              else none
-        let nonDecreasing := (arrivals.zip (arrivals.drop 1)).all fun ((a, an), (b, bn)) => a < b ∨ (a = b ∧ an ≤ bn)
-        let firedCount := (tobs.filter fun o => match o with | some (true, _) => true | _ => false).length
+              -- an error of `append` is expected exactly where the injected roller failure meets a firing
+              let badErr := (arrivals.zip entries).findIdx? fun (a, e) =>
+                e.appendErr != (a.failRoll && (match e.obs with | some (true, _) => true | _ => false))
+              match badErr with
+              | some i => some (s!"FAIL:at-arrival-{i + 1}:append-error-iff-injected-roller-failure;sig=C16/append-error")
+              | none =>
+                let implFlags : List (Option Bool) := entries.map fun e =>
+                  if e.appendErr then none else e.obs.map (·.1)
+                match segObs with
+                | [raw] =>
+                  if arrivals.isEmpty then (if raw = "-" then none else some "FAIL:files-without-records;sig=C16/trigger-files")
+                  else match decSegs raw with
+                    | some files =>
+                      if filesOk implFlags files then none
+                      else some ("FAIL:files-not-cut-before-the-firing-record got " ++ raw ++ ";sig=C16/trigger-files")
+                    | none => some "FAIL:files-unreadable;sig=C16/trigger-files"
+                | _ => some "FAIL:observation-incomplete;sig=C16/trigger-observation"
+        let nonDecreasing := (arrivals.zip (arrivals.drop 1)).all fun (a, b) =>
+          a.first.1 < b.first.1 ∨ (a.first.1 = b.first.1 ∧ a.first.2 ≤ b.first.2)
+        let firedCount := (entries.filter fun e => match e.obs with | some (true, _) => true | _ => false).length
         let tags := ["trig", unitName u, if modulate then "modulated" else "plain",
-            if maxDelay > 0 then "delay" else "no-delay", s!"fired-{firedCount}",
-            if nonDecreasing then "monotone" else "clock-steps-back"] ++
-          ((b0 :: bs).flatMap fun b => factTags b.facts).eraseDups ++ acrossTag u ((b0 :: bs).map (·.facts)) ++
-          (if n < 1 then ["n-below-1"] else []) ++
-          (if implS0.isNone then ["creation-panics", "impl-panics"] else if (entries.map decTrigObs).any (·.isNone) then ["impl-panics"] else [])
+            if maxDelay > 0 then (if maxDelay > DUR_MAX then "delay-bound-beyond-chrono" else "delay") else "no-delay",
+            s!"fired-{firedCount}", if nonDecreasing then "monotone" else "clock-steps-back"] ++
+          ((b0 :: bsAll).flatMap fun b => factTags b.facts u n modulate b.result).eraseDups ++
+          (if arrivals.any (·.second.isSome) then ["two-clock-readings"] else []) ++
+          (if entries.any (·.appendErr) then ["roller-failed-after-firing"] else []) ++
+          (if implS0.isNone then ["creation-panics"] else [])
         { model, spec := (blockVerdict <|> trigVerdict).getD "ok", tags }
 
 def handle : Handler := fun cas obs =>
@@ -314,7 +371,7 @@ def handle : Handler := fun cas obs =>
   match cas with
   | [kind, _tz, secs, nanos, unit, n, modulate, maxDelay, arrivals] =>
     match decInt secs, decNat nanos, decUnit unit, decInt n, decBool modulate, decNat maxDelay,
-        mapM? decInstant (decList ',' arrivals) with
+        mapM? decArrival (decList ',' arrivals) with
     | some secs, some _, some u, some n, some modulate, some maxDelay, some arrivals =>
       if kind = "next" then
         if arrivals.isEmpty ∧ maxDelay = 0 then handleNext secs u n modulate obs else badCase "next-extra"
